@@ -24,6 +24,9 @@ HEADERS = [
     "Cueing down from goal distance:    3 into depth [1]\n                                   2            [1]\n"
     "                                   0\n\n",
     "\nadvancing to distance:   12\n                         11\n                          0\n\n",
+    # the log of a wrapper that tried another configuration first: a give-up phrase BEFORE the plan (the log contains a plan)
+    "\nEnforced Hill-climbing failed !\nswitching to Best-first Search now.\n\nadvancing to distance:    3\n                          0\n\n",
+    "\nff: goal can be simplified to FALSE. No plan will solve it\n\nsecond run:\n\nadvancing to distance:    1\n                          0\n\n",
 ]
 MARKER = "ff: found legal plan as follows\n\n"
 TRAILERS = [
@@ -441,6 +444,12 @@ def tasks_for(tier, seed):
         for tl in tls[:4]:
             tasks.append({"kind": "ff", "entry": "content", "word_lens": ws, "trailer_len": tl, "numbers": [0, 1, 2][: len(ws)],
                           "indent": 4, "header": 1, "trailer": 0, "crlf": False, "blank_after_plan": False, "free_line": True})
+    # a give-up phrase of an earlier attempt precedes the plan
+    for entry in ("status", "parse_plan"):
+        for header in (2, 3):
+            for ws in word_shapes_1[:2] + word_shapes_2[:1]:
+                tasks.append({"kind": "ff", "entry": entry, "word_lens": ws, "trailer_len": 0, "numbers": [0, 1, 2][: len(ws)],
+                              "indent": 4, "header": header, "trailer": 0, "crlf": False, "blank_after_plan": True, "free_line": False})
     # the log ends right after the newline of the last step / after one blank line / after a free line without the summary
     for entry in ("content", "status", "parse_plan"):
         for ws in word_shapes_1[:4] + word_shapes_2[:2]:
